@@ -229,3 +229,8 @@ RULES = [
     Rule("C20.Y3", rule_Y3, floor=4, doc="axis mapping, every listed cell drawn"),
     Rule("C20.Y4", rule_Y4, floor=3, doc="delegation"),
 ]
+
+from sa import dims as _dims  # noqa: E402
+
+RULES.append(Rule("C20.AX", _dims.make_rule("C20", "C20.AX"), floor=1,
+                  doc="axis-extent agreement: coordinate components are bounded by the extent of their own axis (E13)"))
